@@ -4,7 +4,7 @@
    the side condition it needs and a refutation without it.  The implementation's plans are
    tied to these laws by evaluation (harness/c08.py, Model/SqlEval.v, Model/SqlJudge.v). *)
 From Coq Require Import ZArith PArith List Bool.
-From MSV Require Import Lib.Rel Proofs.RelLaws.
+From MSV Require Import Lib.Rel Proofs.RelLaws Proofs.SortPush.
 Import ListNotations.
 
 (* INNER JOIN: conditions pushed into both fetches and the semi-join restriction of the second
@@ -59,3 +59,23 @@ Theorem C08_offset_through_left_join_refuted :
   exists th ns k R S, skipn k (join_left th ns R S) <> join_left th ns (skipn k R) S.
 Proof. exact offset_through_left_join_refuted. Qed.
 Print Assumptions C08_limit_through_left_join.
+
+(* ORDER BY <columns of the first table> [LIMIT n] may follow the first table of a LEFT JOIN into its fetch -- if the fetch sorts
+   by the SAME comparison (direction and NULL placement, Lib/Rel.kle): sorting the join is joining the sorted table (the sort is
+   stable, the join keeps the rows of one left row together); the outer step sorts and cuts again.  With another NULL placement
+   in the fetch the law fails.  keyf: the sort-key expressions evaluated on a row of the first table (width w). *)
+Theorem C08_order_by_through_left_join :
+  forall spec keyf w th ns (R S : rel), width_ok w R ->
+    isort (le_joined w (le_keys spec keyf)) (join_left th ns R S) = join_left th ns (isort (le_keys spec keyf) R) S.
+Proof. exact sort_through_left_join_kle. Qed.
+Theorem C08_order_limit_through_left_join :
+  forall spec keyf w th ns n (R S : rel), width_ok w R ->
+    firstn n (isort (le_joined w (le_keys spec keyf)) (join_left th ns (firstn n (isort (le_keys spec keyf) R)) S)) =
+    firstn n (isort (le_joined w (le_keys spec keyf)) (join_left th ns R S)).
+Proof. exact order_limit_through_left_join_kle. Qed.
+Theorem C08_order_limit_needs_the_same_comparison_refuted :
+  exists th ns n (R S : rel),
+    firstn n (isort (le_joined 1 (le_spec [(false, false)])) (join_left th ns (firstn n (isort (le_spec [(false, true)]) R)) S)) <>
+    firstn n (isort (le_joined 1 (le_spec [(false, false)])) (join_left th ns R S)).
+Proof. exact order_limit_needs_the_same_comparison_refuted. Qed.
+Print Assumptions C08_order_limit_through_left_join.
